@@ -77,7 +77,10 @@ func Preview(sql string) int {
 	isNotLetter := func(r rune) bool { return !unicode.IsLetter(r) }
 	firstWord := strings.TrimLeftFunc(trimmed, isNotLetter)
 
-	if end := strings.IndexFunc(firstWord, unicode.IsSpace); end != -1 {
+	// the first word ends at white space or at any character that cannot
+	// continue a keyword ("insert/**/into", "delete`t`", "select*from")
+	isWordEnd := func(r rune) bool { return unicode.IsSpace(r) || !isIdentChar(r) }
+	if end := strings.IndexFunc(firstWord, isWordEnd); end != -1 {
 		firstWord = firstWord[:end]
 	}
 	// Comparison is done in order of priority.
